@@ -53,7 +53,7 @@ SPEC = dict(
     assumptions=["prior content of config-capable files is valid TOML/INI (init appends to it)",
                  "the initial version is '<current UTC year>.1001-alpha'"],
     required=["layouts", "init_appended_to_existing_file", "init_created_new_file", "show_ok", "second_init_refused",
-              "existing_section_preferred", "dry_runs_clean", "pinned_clock_cases"],
+              "existing_section_preferred", "existing_section_with_comment_after_header", "dry_runs_clean", "pinned_clock_cases"],
     anchors=[("config", "_pick_config_filepath"), ("config", "default_config"), ("config", "write_content"),
              ("cli", "init")],
     exhaustive={"quick": True, "thorough": True},
@@ -83,6 +83,13 @@ def cases(ctx):
             for others in itertools.product(["absent", "unrelated"], repeat=4):
                 cfgs = list(others)
                 cfgs.insert(i, "section")
+                if ctx.mine(k):
+                    yield {"plain": [True, False, True], "cfgs": cfgs}
+                k += 1
+        for i, fn in enumerate(CONFIGS):
+            for others in (["absent"] * 4, ["unrelated"] * 4, ["empty", "absent", "unrelated", "absent"]):
+                cfgs = list(others)
+                cfgs.insert(i, "section#")
                 if ctx.mine(k):
                     yield {"plain": [True, False, True], "cfgs": cfgs}
                 k += 1
@@ -127,8 +134,15 @@ def run_layout(ctx, case, bvu):
             files[fn] = TOOLTABLE[fn]
         elif opt == "nonl":
             files[fn] = UNRELATED[fn].rstrip("\n")   # prior content whose last line has no newline
-        elif opt == "section":
-            files[fn] = UNRELATED[fn] + "\n" + section(fn) if fn != ".bumpver.toml" else section(fn)
+        elif opt in ("section", "section#"):
+            sec = section(fn)
+            if opt == "section#":
+                # the same section, its header followed by a comment (valid TOML, and accepted by configparser)
+                # (without a file_patterns table: the pattern for the own current_version line is left to bumpver)
+                head, rest = sec.split("\n\n")[0].split("\n", 1)
+                sec = head + "  # release config\n" + rest + "\n"
+                ctx.count("existing_section_with_comment_after_header")
+            files[fn] = UNRELATED[fn] + "\n" + sec if fn != ".bumpver.toml" else sec
             sections.append(fn)
     # model of the choice: first candidate with a section, else first existing candidate, else bumpver.toml
     with_section = [fn for fn in PRIORITY if fn in sections]
